@@ -73,6 +73,63 @@ static int read_from_tree(BitStreamReader *reader, TreeElement *tree)
 	return g_sym;
 }
 
+#ifdef STEPWISE
+/* Byte-at-a-time LZ77 semantics as a monitor around the REAL output_byte (the driver renames the real definition
+ * to real_output_byte): a copy of length L at distance d is L steps, each appending the byte that lies d+1
+ * behind the current head of the CURRENT window; appending = store at the head, advance the head (mod RING), hand
+ * the byte to the caller's buffer.  Checked at every step of the real copy loop, so the assertions are local and
+ * the whole length range stays symbolic.  (That real output_byte changes nothing else: harness_outbyte.)
+ * Cut point: after each step the monitor re-chooses the window CONTENTS arbitrarily (__CPROVER_havoc_slice), so
+ * every step is checked against an arbitrary window rather than the one computed so far - an over-approximation
+ * (more behaviours than the real run), which keeps each step's formula independent of the previous ones.  The
+ * head position is not cut; its closed form is asserted at each step and then assumed as a lemma. */
+static unsigned steps, g_d, g_is_copy, g_pos0;
+#if defined(__CPROVER__)
+#define HAVOC_WINDOW(d) __CPROVER_havoc_slice((d)->ringbuf, RING)
+#else
+#define HAVOC_WINDOW(d) ((void) 0)
+#endif
+static void output_byte(LHANewDecoder *decoder, uint8_t *buf, size_t *buf_len, uint8_t b)
+{
+	unsigned head = decoder->ringbuf_pos;
+	size_t at = *buf_len;
+	CHECK(at == steps, "C01 H01.cmd: output bytes are appended in order");
+	CHECK(head == ((g_pos0 + steps) & (RING - 1)), "C01 H01.cmd: head = initial position + bytes appended so far (mod RING)");
+	ASSUME(head == ((g_pos0 + steps) & (RING - 1)));      /* proved just above: lemma for the following checks */
+	if (g_is_copy) {
+		CHECK(b == decoder->ringbuf[(head + RING - 1 - g_d) & (RING - 1)], "C01 H01.cmd: each copy step appends the byte d+1 behind the head of the current window");
+	} else {
+		CHECK(b == (u8) g_code, "C01 H01.cmd: literal step appends the literal");
+	}
+	real_output_byte(decoder, buf, buf_len, b);
+	CHECK(*buf_len == at + 1 && buf[at] == b, "C01 H01.cmd: the byte is handed to the caller");
+	CHECK(decoder->ringbuf[head] == b && decoder->ringbuf_pos == ((head + 1) & (RING - 1)), "C01 H01.cmd: the byte enters the window at the head; head advances mod RING");
+	HAVOC_WINDOW(decoder);
+	++steps;
+}
+
+/* real output_byte from an arbitrary state: exactly one ring cell and one buffer cell change */
+void harness_outbyte(void)
+{
+	INPUT(u32, pos0); INPUT(u32, fill); INPUT(u32, probe); INPUT(u32, oprobe); INPUT(u8, b);
+	static u8 out[MAXLEN], out0[MAXLEN];
+	LHANewDecoder d0;
+	size_t n;
+	unsigned i;
+	ASSUME(pos0 < RING && probe < RING && fill < MAXLEN && oprobe < MAXLEN);
+	dec = d0;
+	dec.ringbuf_pos = pos0;
+	for (i = 0; i < MAXLEN; ++i) out0[i] = out[i];
+	n = fill;
+	real_output_byte(&dec, out, &n, b);
+	CHECK(n == fill + 1 && out[oprobe] == (oprobe == fill ? b : out0[oprobe]), "C01 H01.cmd: output_byte appends exactly one byte to the caller's buffer");
+	CHECK(dec.ringbuf[probe] == (probe == pos0 ? b : d0.ringbuf[probe]), "C01 H01.cmd: output_byte changes exactly the ring cell at the head");
+	CHECK(dec.ringbuf_pos == (pos0 + 1) % RING, "C01 H01.cmd: head advances by one mod RING");
+	if (pos0 == RING - 1) WITNESS("head wraps");
+	WITNESS("end");
+}
+#endif
+
 void harness(void)
 {
 	INPUT(u32, pos0); INPUT(u32, code); INPUT(u32, sym); INPUT(u32, idx); INPUT(u32, probe); INPUT(u32, rem);
@@ -90,6 +147,9 @@ void harness(void)
 	ASSUME(pos0 < RING && probe < RING && code < NUM_CODES && sym <= MAXSYM && rem >= 1);
 #ifdef FIXCODE
 	code = FIXCODE;                      /* one concrete command code (grid point) */
+#endif
+#ifdef FIXSYM
+	sym = FIXSYM;
 #endif
 #ifdef FIXPOS
 	pos0 = FIXPOS;                        /* one concrete write position (grid point) */
@@ -121,20 +181,11 @@ void harness(void)
 	dec.ringbuf_pos = pos0;
 	dec.block_remaining = rem;
 	g_code = (int) code; g_sym = (int) sym;
-
-#ifdef SPLITPOS
-	/* same call, written as a case split over the write position so that symbolic execution sees a constant
-	 * position on each path (no restriction: the cases cover every pos0 < RING) */
-	n = 0;
-	for (i = 0; i < RING; ++i) {
-		if (pos0 == i) {
-			dec.ringbuf_pos = i;
-			n = lha_lh_new_read(&dec, out);
-		}
-	}
-#else
-	n = lha_lh_new_read(&dec, out);
+#ifdef STEPWISE
+	g_d = d; g_is_copy = code >= 256; g_pos0 = pos0;
 #endif
+
+	n = lha_lh_new_read(&dec, out);
 
 	CHECK(code_walks == 1, "C01 H01.cmd: exactly one code-tree symbol per command");
 	CHECK(dec.block_remaining == rem - 1, "C01 H01.cmd: one command consumed from the block");
@@ -142,16 +193,26 @@ void harness(void)
 		CHECK(n == 1 && out[0] == (u8) code, "C01 H01.cmd: literal yields exactly its byte");
 		CHECK(off_walks == 0 && bs_pos == 0, "C01 H01.cmd: literal reads no offset symbol and no extra bits");
 		CHECK(dec.ringbuf_pos == (pos0 + 1) % RING, "C01 H01.cmd: write position advances by one (mod RING)");
+#ifdef STEPWISE
+		CHECK(steps == 1, "C01 H01.cmd: a literal is exactly one step");
+#else
 		CHECK(dec.ringbuf[probe] == (probe == pos0 ? (u8) code : d0.ringbuf[probe]), "C01 H01.cmd: window after a literal");
+#endif
 	} else {
 		CHECK(n == len, "C01 H01.cmd: copy yields exactly its length");
 		CHECK(off_walks == 1 && bs_pos == p, "C01 H01.cmd: copy reads one offset symbol and exactly its extra bits");
 		CHECK(d < RING, "harness: distance inside the window");
+#ifdef STEPWISE
+		CHECK(steps == len, "C01 H01.cmd: a copy is exactly 'length' steps");
+		(void) idx; (void) probe;
+#else
 		if (idx < len) {
 			u8 expect = idx <= d ? d0.ringbuf[(pos0 + RING - 1 - d + idx) % RING] : out[idx - d - 1];
 			CHECK(out[idx] == expect, "C01 H01.cmd: copy byte i is the window byte at distance d, or output byte i-d-1 (overlap)");
 		}
+#endif
 		CHECK(dec.ringbuf_pos == (pos0 + len) % RING, "C01 H01.cmd: write position advances by the copy length (mod RING)");
+#ifndef STEPWISE
 		{
 			/* last output byte written to ring cell 'probe', if any */
 			unsigned e = (probe + RING - pos0) % RING;
@@ -162,6 +223,7 @@ void harness(void)
 				CHECK(dec.ringbuf[probe] == d0.ringbuf[probe], "C01 H01.cmd: window cells not written keep their content");
 			}
 		}
+#endif
 		if (pos0 + len > RING && d + 1 > pos0) WITNESS("copy crosses the ring seam on both the read and the write side");
 		if (len == LENMAX && d + 2 < len) WITNESS("longest copy, self-overlapping");
 		if (d == RING - 1) WITNESS("largest distance of the window");
